@@ -12,14 +12,14 @@ OWN = {"C01": {"result"}, "C02": {"gas"}, "C18": {"stream", "tracerout"}, "C07":
 def plan(prop, tier):
     q = tier == "quick"
     if prop == "C01":
-        return dict(n=500 if q else 6000, matrix=10 if q else 1, sweep=0, tracers_every=0, forks=STD_FORKS, limit=3000, batches=8 if q else 16)
+        return dict(n=500 if q else 6000, matrix=10 if q else 1, sweep=0, tracers_every=0, forks=STD_FORKS, limit=3000, batches=8 if q else 32)
     if prop == "C02":
-        return dict(n=250 if q else 2500, matrix=30 if q else 3, sweep=12 if q else 60, tracers_every=0, forks=STD_FORKS, limit=3000, batches=8 if q else 16)
+        return dict(n=250 if q else 2500, matrix=30 if q else 3, sweep=12 if q else 60, tracers_every=0, forks=STD_FORKS, limit=3000, batches=8 if q else 96)
     if prop == "C05":
-        return dict(n=400 if q else 5000, matrix=300 if q else 20, sweep=0, tracers_every=0, forks=STD_FORKS + ["Cancun"], limit=3000, batches=8 if q else 16, jp_every=1)
+        return dict(n=400 if q else 5000, matrix=300 if q else 20, sweep=0, tracers_every=0, forks=STD_FORKS + ["Cancun"], limit=3000, batches=8 if q else 32, jp_every=1)
     if prop in ("C07", "C08", "C13"):
-        return dict(n=400 if q else 5000, matrix=300 if q else 20, sweep=0, tracers_every=0, forks=STD_FORKS + ["Cancun"], limit=3000, batches=8 if q else 16)
-    return dict(n=300 if q else 3000, matrix=60 if q else 8, sweep=2, tracers_every=2, forks=STD_FORKS, limit=3000, batches=8 if q else 16)
+        return dict(n=400 if q else 5000, matrix=300 if q else 20, sweep=0, tracers_every=0, forks=STD_FORKS + ["Cancun"], limit=3000, batches=8 if q else 32)
+    return dict(n=300 if q else 3000, matrix=60 if q else 8, sweep=2, tracers_every=2, forks=STD_FORKS, limit=3000, batches=8 if q else 32)
 
 
 def validate(batch, workdir):
@@ -28,7 +28,7 @@ def validate(batch, workdir):
     for f in ("StepTrace.tla", "EVMOps.tla", "StepTrace.cfg"):
         shutil.copy(os.path.join(SPEC, f), w)
     os.symlink(batch, os.path.join(w, "trace.ndjson"))
-    cmd = ["java", "-XX:+UseParallelGC", "-Xmx3g", "-Xss64m", "-cp", TLAJAR, "tlc2.TLC", "-metadir", os.path.join(w, "meta"), "-workers", "1",
+    cmd = ["java", "-XX:+UseParallelGC", "-Xmx5g", "-Xss64m", "-cp", TLAJAR, "tlc2.TLC", "-metadir", os.path.join(w, "meta"), "-workers", "1",
            "-config", "StepTrace.cfg", "StepTrace"]
     p = subprocess.run(cmd, cwd=w, capture_output=True, text=True, timeout=3000)
     out = p.stdout + p.stderr
